@@ -175,9 +175,8 @@ structure Sim where
 def Sim.addStratum (s : Sim) (c : Bool) (n : String) : Sim :=
   if c && !s.strata.contains n then { s with strata := n :: s.strata } else s
 
-/-- `keysAsIs`: non-string keys as the code treats them (else: as distinct keys, the reading of the
-    property); `burn`: a refused rule blocks its name, as the code does (else: validate first) -/
-def simulate (rx : Nat → Val → Bool) (keysAsIs burn : Bool) (ff : Bool) (failing : List Nat)
+/-- `keysAsIs`: non-string keys as the code treats them (else: as distinct keys) -/
+def simulate (rx : Nat → Val → Bool) (keysAsIs : Bool) (ff : Bool) (failing : List Nat)
     (rules : List Rule) (caseScope : Scope) (evs : List EvX) (ops : List SOp) : Sim :=
   let rules := if keysAsIs then rules.map asIsRule else rules
   ops.foldl (fun (s : Sim) op =>
@@ -191,8 +190,7 @@ def simulate (rx : Nat → Val → Bool) (keysAsIs burn : Bool) (ff : Bool) (fai
       match rules[i]? with
       | none => { s with bad := true }
       | some r =>
-        let (p', err) :=
-          if !burn && (r.kinds = [] || r.scopeNil) then (({ s.p with cache := [] } : Proc), true) else s.p.addRule r
+        let (p', err) := s.p.addRule r
         ({ s with p := p', errs := s.errs ++ [(i, err)], seenKinds := [] }).addStratum s.evSeen "ruleafter"
     | .ev i =>
       match evs[i]? with
@@ -280,18 +278,13 @@ def runCase (payload : String) : String :=
       let defaultOps := (List.range rules.length).map SOp.rule ++ (List.range evs.length).map SOp.ev
       let ops := match field fs "z" with | some z => (parseSched z).getD defaultOps | none => defaultOps
       let sc := Scope.build defs
-      let run := fun (keysAsIs burn : Bool) => simulate rx keysAsIs burn ff failing rules sc evs ops
-      let base := run true true
+      let base := simulate rx true ff failing rules sc evs ops
       let res := render ecal rules.length evs.length base
       -- a sink whose statematch has a non-string key cannot mean what it says (`createRule` turns the key
       -- into its text, `Rule.StateMatch` has string keys): the property is kept by refusing the declaration
       let markedRule := rules.any fun r => (r.state.getD []).any fun kp => isMarked kp.1
       let specKeys := if markedRule then "ERR-SINK" else res
-      let specBurn := render ecal rules.length evs.length (run true false)
-      let attrs :=
-        if specKeys != res then "\tkf=statematch-nonstring-key\tspec=" ++ specKeys
-        else if specBurn != res then "\tkf=addrule-refused-name-registered\tspec=" ++ specBurn
-        else ""
+      let attrs := if specKeys != res then "\tkf=statematch-nonstring-key\tspec=" ++ specKeys else ""
       let st := if base.strata.isEmpty then "" else "\tst=" ++ ",".intercalate base.strata
       res ++ (if base.strata.contains "kind" then "\tnt=1" else "") ++ st ++ attrs
     | _, _, _, _ => "bad-payload"
